@@ -1445,10 +1445,14 @@ func asUncatchableException(v interface{}) error {
 func (r *Runtime) RunProgram(p *Program) (result Value, err error) {
 	vm := r.vm
 	recursive := len(vm.callStack) > 0
+	ctxPushed := false
 	defer func() {
 		if recursive {
-			vm.sp -= 2
-			vm.popCtx()
+			// pushCtx() may have failed with a stack overflow: the top context is then the caller's
+			if ctxPushed {
+				vm.sp -= 2
+				vm.popCtx()
+			}
 		} else {
 			vm.callStack = vm.callStack[:len(vm.callStack)-1]
 		}
@@ -1477,6 +1481,7 @@ func (r *Runtime) RunProgram(p *Program) (result Value, err error) {
 		vm.stack[sp+1] = nil      // 'this'
 		vm.sb = sp + 1
 		vm.sp = sp + 2
+		ctxPushed = true
 	} else {
 		vm.callStack = append(vm.callStack, context{})
 	}
